@@ -147,7 +147,7 @@ package arvados
 //@   modifies nothing
 //@ func memSegment.Len property C08
 //@   modifies nothing
-//@   ensures result == len(me.buf)
+//@   ensures result == len(me.buf) && result >= 0
 
 // truncate: the recorded size becomes the requested size and every change of
 // size invalidates cached pointers of other handles (repacked is bumped),
